@@ -50,6 +50,9 @@ def operator_workload(api, M, S, O, ctx):
     W.append(("helmholtz.V[p1in,p1bd]", lambda: O.dense(O.boundary(api, "helmholtz", "single_layer", p1in, p1bd, p1bd, 1.3 + 0.2j, parameters=par))))
     W.append(("maxwell.E[rwg,snc]", lambda: O.dense(O.boundary(api, "maxwell", "electric_field", rwg, rwg, snc, 0.9, parameters=par))))
     W.append(("laplace.pot.DL[p1]", lambda: np.asarray(O.potential(api, "laplace", "double_layer", p1, pts, parameters=par).evaluate(c_p1))))
+    # very few evaluation points (fewer points than threads): work is then split differently, the values must not know
+    W.append(("laplace.pot.DL[p1] 1 point", lambda: np.asarray(O.potential(api, "laplace", "double_layer", p1, pts[:, :1], parameters=par).evaluate(c_p1))))
+    W.append(("laplace.pot.DL[p1] 3 points", lambda: np.asarray(O.potential(api, "laplace", "double_layer", p1, pts[:, 1:4], parameters=par).evaluate(c_p1))))
     W.append(("sparse.M[p1,dp0]", lambda: O.dense(O.boundary(api, "sparse", "identity", p1, p1, dp0, parameters=par))))
     if not ctx.quick:
         p1s = api.function_space(scr, "P", 1, include_boundary_dofs=True)
